@@ -312,17 +312,11 @@ def plan(idx, files_re=None, funcs_re=None, max_harnesses=10):
             continue
         if funcs_re and not re.search(funcs_re, qual):
             continue
-        hs = sorted(hs, key=lambda hn: (q not in idx['harnesses'][hn]['declared'], idx['harnesses'][hn]['wall_s']))
-        # spread over properties: first one harness per property, then the rest
-        seen_props, first, rest = set(), [], []
-        for hn in hs:
-            ps = tuple(idx['harnesses'][hn]['props'])
-            if any(p not in seen_props for p in ps):
-                first.append(hn)
-                seen_props.update(ps)
-            else:
-                rest.append(hn)
-        chosen = (first + rest)[:max_harnesses]
+        # every harness that DECLARES the function as under contract (the richest shapes first: they kill fastest),
+        # then a few of the other harnesses that merely execute it
+        decl = sorted([hn for hn in hs if q in idx['harnesses'][hn]['declared']], key=lambda hn: -idx['harnesses'][hn]['wall_s'])
+        other = sorted([hn for hn in hs if hn not in decl], key=lambda hn: idx['harnesses'][hn]['wall_s'])
+        chosen = decl[:48] + other[:max_harnesses]
         tasks.append((file, qual, chosen))
     return tasks
 
